@@ -169,6 +169,31 @@ pub fn run(ctx: &Ctx) -> Report {
             rep.absorb(acc);
         }
     }
+    // 4. deep-stack family: a list of n atoms whose terminator is a back-reference with EVERY path
+    //    below 2^bits, in minimal form and padded with 1 or 2 leading zero bytes
+    for (n, bits) in [(3usize, 8u32), (9, 12), (12, ctx.pick(13, 16)), (17, ctx.pick(13, 18))] {
+        let total = (1u64 << bits) * 3;
+        let acc = par_for(ctx, total, 1 << 8, |i| format!("deep n={n} #{i}"), |i, acc| {
+            let p = i / 3;
+            let pad = (i % 3) as usize;
+            let mut s = vec![];
+            for k in 0..n {
+                s.push(0xff);
+                s.push(1 + k as u8);
+            }
+            s.push(0xfe);
+            // path bytes
+            let mut pb: Vec<u8> = if p == 0 { vec![] } else { let nb = (64 - p.leading_zeros() as usize + 7) / 8; (0..nb).rev().map(|j| (p >> (8 * j)) as u8).collect() };
+            for _ in 0..pad {
+                pb.insert(0, 0);
+            }
+            crate::tree::ser_atom(&pb, &mut s);
+            check_input(&s, acc, false);
+            acc.inc("deep_stack_cases");
+        });
+        rep.evaluations += total;
+        rep.absorb(acc);
+    }
     rep.nontrivial = rep.acc.get("accepted_with_backrefs");
     rep.states = rep.evaluations;
     rep.transitions = rep.evaluations * 3;
